@@ -151,7 +151,7 @@ def run : List String → String
       let b := bytes p
       let r := rmax f
       let u := unpack s (var1 f) b
-      s!"ok bytes={showRows showInt b} var1={showRat (var1 f)} ksum={ksum b} nexp={nexpOf r} pow2={if isPow2 r then 1 else 0} negtrunc={if negTrunc s f then 1 else 0} unpack={showRows showRat u}"
+      s!"ok bytes={showRows showInt b} var1={showRat (var1 f)} ksum={ksum b} nexp={nexpOf r} given={nexp} pow2={if isPow2 r then 1 else 0} negtrunc={if negTrunc s f then 1 else 0} unpack={showRows showRat u}"
     | _, _ => "err parse"
   | ["unpack", ne, v1, rows] =>
     match parseInt ne, parseRat v1, parseRows parseInt rows with
